@@ -268,7 +268,7 @@ fn main() {
     );
     let mut model = ModelProc::from_args(&args);
     let mut tot = Totals { searches: 0, prefixes: 0, bits_differ: 0, schedules: 0 };
-    CONC_CAP.store(args.budget(500, 4_000), std::sync::atomic::Ordering::Relaxed);
+    CONC_CAP.store(args.budget(500, 2_500), std::sync::atomic::Ordering::Relaxed);
     let shapes = all_shapes(3);
 
     if let Some(rp) = &args.replay {
@@ -328,7 +328,7 @@ fn main() {
     }
 
     // ---- random histories
-    let n_cases = args.budget(700, 50_000);
+    let n_cases = args.budget(700, 30_000);
     for i in 0..n_cases {
         let mut rng = Rng::for_case(args.seed, i);
         let ops = gen_case(&mut rng, &shapes);
